@@ -20,6 +20,9 @@ pub struct Cfg {
     pub funds: bool,
     pub rich_text: bool,
     pub block_changes: bool,
+    /// an execute with funds starts (right after its marker) by asking for the callee's own balance in the
+    /// first attached denomination
+    pub probe_funds: bool,
 }
 impl Default for Cfg {
     fn default() -> Self {
@@ -36,6 +39,7 @@ impl Default for Cfg {
             funds: true,
             rich_text: false,
             block_changes: true,
+            probe_funds: false,
         }
     }
 }
@@ -263,7 +267,11 @@ impl<'a> G<'a> {
         if c < 45 {
             let funds = if self.cfg.funds && self.rng.chance(1, 3) { self.coins(6) } else { vec![] };
             let ct = self.some_contract();
-            Msg::Exec { c: ct, p: self.prog(depth, true), funds }
+            let mut p = self.prog(depth, true);
+            if self.cfg.probe_funds && !funds.is_empty() {
+                p.acts.insert(1, Action::Q(QAct::Balance(ct.clone(), funds[0].denom.clone())));
+            }
+            Msg::Exec { c: ct, p, funds }
         } else if c < 60 {
             let to = self.some_addr();
             Msg::BankSend { to, amt: self.coins(5) }
